@@ -29,8 +29,10 @@ Ships(p) == CASE p = "import" -> {}
               [] p = "exec" -> {"gateway_base"}
               [] p = "via" -> {"gateway_base", "gateway_io"}
               [] p = "socket" -> {"gateway_base", "socketio", "socketserver"}
+              \* RSync.add_target on a source-bootstrapped worker: remote_exec of the rsync_remote module text
+              [] p = "rsync" -> {"gateway_base", "rsync_remote"}
 
-Paths == {"import", "exec", "via", "socket"}
+Paths == {"import", "exec", "via", "socket", "rsync"}
 Children == {"stdlib_only", "with_execnet"}
 Avail(c) == IF c = "with_execnet" THEN Stdlib \cup {"execnet"} ELSE Stdlib
 
